@@ -106,9 +106,10 @@ def _matches(entry: dict, pid: str, o: Obligation) -> bool:
         entry.get("status") == "known"
         and entry.get("property") == pid
         and entry.get("rule") == o.rule
-        and entry.get("module") == o.module
-        and entry.get("function") == o.function
         and entry.get("construct") == o.construct
+        # entries for findings of interpreted models name the failing model instance in the construct; they stay the same
+        # finding when the code is moved to another function / module ("anywhere")
+        and (entry.get("anywhere") is True or (entry.get("module") == o.module and entry.get("function") == o.function))
     )
 
 
